@@ -95,8 +95,20 @@ where
     let partition = map_node_names_to_hashsets(&graphu);
     let mut modularity = partitions::modularity(&graphu, &partition, weighted, resolution).unwrap();
     let m = graphu.size(weighted);
-    let (mut partition, mut inner_partition, _improvement) =
-        compute_one_level(&graphu, m, &partition, resolution.unwrap_or(1.0), seed);
+    // In exact arithmetic the local-moving loop of `compute_one_level` always ends (every move improves
+    // modularity or, at an exact tie, lowers a community id). In floating point an exact tie can be
+    // decided either way by rounding, and nodes can then swap communities forever; the loop
+    // therefore gives up after a generous number of sweeps.
+    let num_nodes = graphu.number_of_nodes();
+    let max_sweeps = 4 * num_nodes * num_nodes + 16;
+    let (mut partition, mut inner_partition, _improvement) = compute_one_level(
+        &graphu,
+        m,
+        &partition,
+        resolution.unwrap_or(1.0),
+        seed,
+        max_sweeps,
+    );
     let mut improvement = true;
     let mut partitions: Vec<Vec<HashSet<usize>>> = vec![];
     while improvement {
@@ -108,7 +120,14 @@ where
         }
         modularity = new_mod;
         graphu = generate_graph(&graphu, inner_partition);
-        let z = compute_one_level(&graphu, m, &partition, resolution.unwrap_or(1.0), seed);
+        let z = compute_one_level(
+            &graphu,
+            m,
+            &partition,
+            resolution.unwrap_or(1.0),
+            seed,
+            max_sweeps,
+        );
         partition = z.0;
         inner_partition = z.1;
         improvement = z.2;
@@ -151,6 +170,7 @@ fn compute_one_level(
     partition: &Vec<HashSet<usize>>,
     resolution: f64,
     seed: Option<u64>,
+    max_sweeps: usize,
 ) -> (Vec<HashSet<usize>>, Vec<HashSet<usize>>, bool) {
     let mut _partition = partition.clone();
     let mut node2com: HashMap<usize, usize> = graph
@@ -166,8 +186,10 @@ fn compute_one_level(
     let preds = graph.get_predecessors_map();
     let shuffled_nodes = get_shuffled_node_names(graph, seed);
     let mut nb_moves = 1;
+    let mut nb_sweeps = 0;
     let mut improvement = false;
-    while nb_moves > 0 {
+    while nb_moves > 0 && nb_sweeps < max_sweeps {
+        nb_sweeps += 1;
         nb_moves = 0;
         for u in &shuffled_nodes {
             let mut best_mod = 0.0;
